@@ -45,7 +45,7 @@ def tasks(tier):
         t.append((W, "obs_fock", dict(kind="ghf", norb=3, nu=2, nd=1, what="energy")))
     # AD kinds: lemma on wave_function_auto for an arbitrary bra
     for n, a, b, nc, r in [(2, 1, 1, 1, False), (3, 2, 1, 1, False), (3, 1, 1, 1, True), (3, 1, 1, 2, False)] + \
-                          ([(3, 2, 1, 2, False), (4, 2, 2, 1, True), (3, 2, 0, 1, False), (4, 2, 1, 1, False)] if tier == "thorough" else []):
+                          ([(3, 2, 1, 2, False), (4, 1, 1, 1, True), (4, 2, 1, 1, False)] if tier == "thorough" else []):
         t.append((W, "auto_energy_lemma", dict(norb=n, nu=a, nd=b, nchol=nc, restricted=r)))
     for k in ("multislater", "CISD", "UCISD", "GCISD", "CISD_THC"):
         t.append((W, "auto_inherits", dict(kind=k)))
@@ -53,7 +53,7 @@ def tasks(tier):
     hc = [("cisd", 3, 1, 1, True, False, {}), ("cisd_faster", 3, 1, 1, True, False, {}), ("ucisd", 3, 2, 1, False, True, {}),
           ("ucisd", 3, 1, 1, False, True, {"moB": "identity"})]
     if tier == "thorough":
-        hc += [("cisd", 4, 2, 2, True, False, {}), ("cisd_faster", 4, 2, 2, True, False, {}), ("ucisd", 3, 2, 0, False, True, {}), ("ucisd", 4, 2, 1, False, True, {})]
+        hc += [("cisd", 4, 2, 2, True, False, {}), ("cisd_faster", 4, 2, 2, True, False, {}), ("ucisd", 3, 2, 0, False, True, {}), ("ucisd", 3, 1, 1, False, True, {})]
     for k, n, a, b, r, sdp, extra in hc:
         t.append((W, "obs_fock", dict(kind=k, norb=n, nu=a, nd=b, what="energy", restricted=r, spin_dep=sdp, **extra)))
     t.append((W, "obs_ru", dict(kind="rhf", norb=3, nocc=1, what="energy")))
